@@ -463,6 +463,11 @@ func (c *CheckCtx) writeEvidence(nviol int) {
 			funcs[f] = true
 		}
 	}
+	var funcList []string
+	for f := range funcs {
+		funcList = append(funcList, f)
+	}
+	sort.Strings(funcList)
 	samples := c.Samples
 	for i, h := range hs {
 		if i < 6 {
@@ -493,6 +498,10 @@ func (c *CheckCtx) writeEvidence(nviol int) {
 		"engine_load_s":                 round3(c.Eng.LoadSeconds),
 		"solver":                        "z3 4.8.12 (-in, incremental, push/pop); see one_shot_obligations for others",
 		"stubs":                         stubList(),
+		"functions_encoded":             funcList,
+		"functions_encoded_count":       len(funcList),
+		"path_limit_per_harness":        c.P.MaxPaths,
+		"solver_timeout_ms_per_query":   c.timeoutMs(),
 	}
 	if c.P.Bounds != nil {
 		cov["bounds"] = c.P.Bounds(c.Tier)
@@ -522,6 +531,17 @@ func (c *CheckCtx) writeEvidence(nviol int) {
 	os.MkdirAll(filepath.Join(c.Verif, "evidence"), 0o755)
 	b, _ := json.MarshalIndent(ev, "", " ")
 	os.WriteFile(filepath.Join(c.Verif, "evidence", c.P.ID+".json"), b, 0o644)
+}
+
+func (c *CheckCtx) timeoutMs() int {
+	timeout := 60000
+	if c.Tier == "thorough" {
+		timeout = 600000
+	}
+	if c.P.TimeoutMs != nil {
+		timeout = c.P.TimeoutMs(c.Tier)
+	}
+	return timeout
 }
 
 func round3(f float64) float64 { return float64(int64(f*1000)) / 1000 }
